@@ -223,9 +223,31 @@ func c15GenCase(seed uint64, tier string) *c15Case {
 }
 
 type c15Runner struct {
-	env *verifx.StackEnv
-	out *verifx.Out
-	ctx context.Context
+	env  *verifx.StackEnv
+	out  *verifx.Out
+	ctx  context.Context
+	hung bool // an operation did not return: the stack is wedged, stop the run
+}
+
+// guard runs fn with a watchdog: an operation of the code under test that does not return within
+// the limit is reported as an observation ("hang") instead of blocking the harness forever.
+func (rn *c15Runner) guard(what string, fn func()) {
+	done := make(chan struct{})
+	var pv any
+	go func() {
+		defer close(done)
+		defer func() { pv = recover() }()
+		fn()
+	}()
+	select {
+	case <-done:
+		if pv != nil {
+			panic(pv)
+		}
+	case <-time.After(60 * time.Second):
+		rn.out.Line("hang %s", what)
+		rn.hung = true
+	}
 }
 
 func (rn *c15Runner) token(c *c15Case, b []byte) string {
@@ -292,6 +314,9 @@ func (rn *c15Runner) run(k int, seed uint64, c *c15Case) {
 		return "tx"
 	}
 	for _, op := range c.ops {
+		if rn.hung {
+			break
+		}
 		panics0 := rn.env.Panics.Load()
 		pan := func() string {
 			if rn.env.Panics.Load() != panics0 {
@@ -299,116 +324,122 @@ func (rn *c15Runner) run(k int, seed uint64, c *c15Case) {
 			}
 			return ""
 		}
-		switch op.kind {
-		case "put":
-			notx := op.notx && cp
-			body := c.contents[op.content]
-			var err error
-			if notx {
-				err = st.Top.PutPart(ctx, nil, ids[op.id], bytes.NewReader(body))
-			} else {
-				err = rn.tx(false, func(ctx context.Context, tx database.Tx) error {
-					return st.Top.PutPart(ctx, tx, ids[op.id], bytes.NewReader(body))
-				})
-			}
-			out.Line("put %s %d %s %s%s", mode(notx), op.id, rn.token(c, body), okStr15(err), pan())
-		case "del":
-			notx := op.notx && cd
-			var err error
-			if notx {
-				err = st.Top.DeletePart(ctx, nil, ids[op.id])
-			} else {
-				err = rn.tx(false, func(ctx context.Context, tx database.Tx) error {
-					return st.Top.DeletePart(ctx, tx, ids[op.id])
-				})
-			}
-			out.Line("del %s %d %s%s", mode(notx), op.id, okStr15(err), pan())
-		case "get":
-			notx := op.notx && cg
-			res := ""
-			read := func(ctx context.Context, tx database.Tx) error {
-				rc, err := st.Top.GetPart(ctx, tx, ids[op.id])
-				if err != nil {
-					if errors.Is(err, partstore.ErrPartNotFound) {
-						res = "nf"
-					} else {
-						if os.Getenv("C15_DEBUG") != "" {
-							fmt.Fprintln(os.Stderr, "open error:", err)
+		op := op
+		rn.guard(op.kind, func() {
+			switch op.kind {
+			case "put":
+				notx := op.notx && cp
+				body := c.contents[op.content]
+				var err error
+				if notx {
+					err = st.Top.PutPart(ctx, nil, ids[op.id], bytes.NewReader(body))
+				} else {
+					err = rn.tx(false, func(ctx context.Context, tx database.Tx) error {
+						return st.Top.PutPart(ctx, tx, ids[op.id], bytes.NewReader(body))
+					})
+				}
+				out.Line("put %s %d %s %s%s", mode(notx), op.id, rn.token(c, body), okStr15(err), pan())
+			case "del":
+				notx := op.notx && cd
+				var err error
+				if notx {
+					err = st.Top.DeletePart(ctx, nil, ids[op.id])
+				} else {
+					err = rn.tx(false, func(ctx context.Context, tx database.Tx) error {
+						return st.Top.DeletePart(ctx, tx, ids[op.id])
+					})
+				}
+				out.Line("del %s %d %s%s", mode(notx), op.id, okStr15(err), pan())
+			case "get":
+				notx := op.notx && cg
+				res := ""
+				read := func(ctx context.Context, tx database.Tx) error {
+					rc, err := st.Top.GetPart(ctx, tx, ids[op.id])
+					if err != nil {
+						if errors.Is(err, partstore.ErrPartNotFound) {
+							res = "nf"
+						} else {
+							if os.Getenv("C15_DEBUG") != "" {
+								fmt.Fprintln(os.Stderr, "open error:", err)
+							}
+							res = "err open"
 						}
+						return nil
+					}
+					if rc == nil {
 						res = "err open"
+						return nil
 					}
+					b, rerr := io.ReadAll(rc)
+					_ = rc.Close()
+					if rerr != nil {
+						if os.Getenv("C15_DEBUG") != "" {
+							fmt.Fprintln(os.Stderr, "read error:", rerr, "after", len(b), "bytes")
+						}
+						res = "err read"
+						return nil
+					}
+					res = "ok " + rn.token(c, b)
 					return nil
 				}
-				if rc == nil {
+				if notx {
+					_ = read(ctx, nil)
+				} else if err := rn.tx(true, read); err != nil && res == "" {
 					res = "err open"
-					return nil
 				}
-				b, rerr := io.ReadAll(rc)
-				_ = rc.Close()
-				if rerr != nil {
-					if os.Getenv("C15_DEBUG") != "" {
-						fmt.Fprintln(os.Stderr, "read error:", rerr, "after", len(b), "bytes")
+				out.Line("get %s %d %s%s", mode(notx), op.id, res, pan())
+			case "ids":
+				var got []partstore.PartId
+				err := rn.tx(true, func(ctx context.Context, tx database.Tx) error {
+					var e error
+					got, e = st.Top.GetPartIds(ctx, tx)
+					return e
+				})
+				if err != nil {
+					out.Line("ids err 0")
+					return
+				}
+				seen := map[int]bool{}
+				dups := 0
+				var ords []int
+				unknown := 0
+				for _, id := range got {
+					o, ok := ord[id.String()]
+					if !ok {
+						unknown++
+						if os.Getenv("C15_DEBUG") != "" {
+							fmt.Fprintln(os.Stderr, "foreign id:", id.String(), "case", k)
+						}
+						continue
 					}
-					res = "err read"
-					return nil
+					if seen[o] {
+						dups = 1
+						continue
+					}
+					seen[o] = true
+					ords = append(ords, o)
 				}
-				res = "ok " + rn.token(c, b)
-				return nil
-			}
-			if notx {
-				_ = read(ctx, nil)
-			} else if err := rn.tx(true, read); err != nil && res == "" {
-				res = "err open"
-			}
-			out.Line("get %s %d %s%s", mode(notx), op.id, res, pan())
-		case "ids":
-			var got []partstore.PartId
-			err := rn.tx(true, func(ctx context.Context, tx database.Tx) error {
-				var e error
-				got, e = st.Top.GetPartIds(ctx, tx)
-				return e
-			})
-			if err != nil {
-				out.Line("ids err 0")
-				continue
-			}
-			seen := map[int]bool{}
-			dups := 0
-			var os []int
-			unknown := 0
-			for _, id := range got {
-				o, ok := ord[id.String()]
-				if !ok {
-					unknown++
-					continue
+				sort.Ints(ords)
+				ss := make([]string, len(ords))
+				for i, o := range ords {
+					ss[i] = fmt.Sprint(o)
 				}
-				if seen[o] {
-					dups = 1
-					continue
+				for i := 0; i < unknown; i++ {
+					ss = append(ss, "x")
 				}
-				seen[o] = true
-				os = append(os, o)
+				s := strings.Join(ss, ",")
+				if s == "" {
+					s = "-"
+				}
+				out.Line("ids %s %d", s, dups)
+			case "flush":
+				if st.Flush(ctx, 20*time.Second) {
+					out.Line("flush ok")
+				} else {
+					out.Line("flush timeout")
+				}
 			}
-			sort.Ints(os)
-			ss := make([]string, len(os))
-			for i, o := range os {
-				ss[i] = fmt.Sprint(o)
-			}
-			for i := 0; i < unknown; i++ {
-				ss = append(ss, "x")
-			}
-			s := strings.Join(ss, ",")
-			if s == "" {
-				s = "-"
-			}
-			out.Line("ids %s %d", s, dups)
-		case "flush":
-			if st.Flush(ctx, 20*time.Second) {
-				out.Line("flush ok")
-			} else {
-				out.Line("flush timeout")
-			}
-		}
+		})
 	}
 }
 
@@ -487,7 +518,9 @@ func runC15(args []string) {
 	f := verifx.ParseFlags("c15", args, 260, 1500)
 	out := verifx.NewOut()
 	env := verifx.NewStackEnv(filepath.Join(f.Scratch, "c15"))
-	defer env.Close()
+	if os.Getenv("C15_KEEP") == "" {
+		defer env.Close()
+	}
 	rn := &c15Runner{env: env, out: out, ctx: context.Background()}
 	k := 0
 	if spec := os.Getenv("C15_STACK"); spec != "" {
